@@ -30,9 +30,9 @@ PROP = {
          "facets": ["C07/padded-assets", "C07/padded-outlinks", "C07/srcset-ws"],
          "checks": (800, 5000), "shards": (1, 4), "timeout": (600, 3000)},
         # requisites that share a file name and differ in directory / host: each one is its own resource
-        {"name": "c07same", "pkg": _PKG, "run": "^TestVerif_C07_SameName$", "kind": "rapid",
-         "facets": ["C07/same-name"],
-         "checks": (600, 4000), "shards": (1, 4), "timeout": (600, 3000)},
+        {"name": "c07same", "pkg": _PKG, "run": "^TestVerif_C07_(SameName|RedirectedPage)$", "kind": "rapid",
+         "facets": ["C07/same-name", "C07/redirected-page"],
+         "checks": (1500, 8000), "shards": (1, 4), "timeout": (600, 3000)},
     ] + [
         {"name": "c07kf-" + name.lower(), "pkg": _PKG, "run": "^TestVerifKF_C07_" + name + "$", "kind": "kf", "finding": key,
          "facets": ["C07/kf-" + key[4:]], "checks": (1, 1), "shards": (1, 1), "timeout": (120, 120)}
